@@ -2,6 +2,7 @@
    memory model is represented by the provenance abstraction of Model/Heap.v; what ties it
    to the code is the correspondence check, which overwrites the real buffer). *)
 From Model Require Import Bytes Entries Prim Cert KAC Mapping Sig LS RI Heap.
+From Proofs Require Import HeapProofs.
 Open Scope N_scope.
 
 (* a value all of whose fields are fresh copies reports the same bytes whatever is later
@@ -9,65 +10,24 @@ Open Scope N_scope.
    the final buffer contents matter *)
 Theorem C08_fresh_fields_ignore_buffer : forall fields buf buf',
   all_fresh fields = true -> map (observe buf) fields = map (observe buf') fields.
-Proof.
-  induction fields as [|p t IH]; intros buf buf' H; [reflexivity|].
-  cbn [all_fresh forallb] in H. apply Bool.andb_true_iff in H. destruct H as [Hp Ht].
-  cbn [map]. f_equal; [destruct p; [reflexivity|discriminate]|]. apply IH. exact Ht.
-Qed.
+Proof. exact fresh_fields_ignore_buffer. Qed.
 Print Assumptions C08_fresh_fields_ignore_buffer.
 Theorem C08_view_follows_buffer : forall o l buf buf',
   firstn l (skipn o buf) <> firstn l (skipn o buf') -> observe buf (View o l) <> observe buf' (View o l).
-Proof. intros o l buf buf' H. exact H. Qed.
-
-(* the structures named by the property keep no view of the input *)
-Definition in_scope : list N :=
-  [E_ReadCertificate; E_NewKeyCertificate; E_ReadKeysAndCert; E_ReadKACElgEd25519; E_ReadKACX25519Ed25519;
-   E_ReadDestination; E_ReadRouterIdentity; E_ReadSignature; E_ReadOfflineSignature; E_ReadLease; E_ReadLease2;
-   E_ReadLeaseSet; E_ReadEncryptedLeaseSet].
-Ltac unfold_entries H :=
-  unfold E_ReadLeaseSet2, E_ReadMetaLeaseSet, E_ReadRouterAddress, E_ReadRouterInfo, E_ReadMapping, E_ReadI2PString,
-    E_ReadCertificate, E_NewKeyCertificate, E_ReadKeysAndCert, E_ReadKACElgEd25519, E_ReadKACX25519Ed25519,
-    E_ReadDestination, E_ReadRouterIdentity, E_ReadSignature, E_ReadOfflineSignature, E_ReadLease, E_ReadLease2,
-    E_ReadLeaseSet, E_ReadEncryptedLeaseSet, E_ReadDate, E_ReadHash, E_ReadSessionKey, E_ReadSessionTag,
-    E_ReadECIESSessionTag in H.
-Ltac scope_case :=
-  intros x extra b H; unfold bytes_change in H; unfold_entries H; cbn [N.eqb Pos.eqb] in H;
-  repeat match type of H with
-  | (do _ <- ?m; _) = Ok _ => destruct m as [?| |]; cbn [rbind] in H; try discriminate
-  end; injection H as <-; reflexivity.
-Lemma scope_cert : forall x extra b, bytes_change E_ReadCertificate x extra = Ok b -> b = false. Proof. scope_case. Qed.
-Lemma scope_kc : forall x extra b, bytes_change E_NewKeyCertificate x extra = Ok b -> b = false. Proof. scope_case. Qed.
-Lemma scope_kac : forall x extra b, bytes_change E_ReadKeysAndCert x extra = Ok b -> b = false. Proof. scope_case. Qed.
-Lemma scope_kac1 : forall x extra b, bytes_change E_ReadKACElgEd25519 x extra = Ok b -> b = false. Proof. scope_case. Qed.
-Lemma scope_kac2 : forall x extra b, bytes_change E_ReadKACX25519Ed25519 x extra = Ok b -> b = false. Proof. scope_case. Qed.
-Lemma scope_dest : forall x extra b, bytes_change E_ReadDestination x extra = Ok b -> b = false. Proof. scope_case. Qed.
-Lemma scope_ri : forall x extra b, bytes_change E_ReadRouterIdentity x extra = Ok b -> b = false. Proof. scope_case. Qed.
-Lemma scope_sig : forall x extra b, bytes_change E_ReadSignature x extra = Ok b -> b = false. Proof. scope_case. Qed.
-Lemma scope_off : forall x extra b, bytes_change E_ReadOfflineSignature x extra = Ok b -> b = false. Proof. scope_case. Qed.
-Lemma scope_lease : forall x extra b, bytes_change E_ReadLease x extra = Ok b -> b = false. Proof. scope_case. Qed.
-Lemma scope_lease2 : forall x extra b, bytes_change E_ReadLease2 x extra = Ok b -> b = false. Proof. scope_case. Qed.
-Lemma scope_ls : forall x extra b, bytes_change E_ReadLeaseSet x extra = Ok b -> b = false. Proof. scope_case. Qed.
-Lemma scope_els : forall x extra b, bytes_change E_ReadEncryptedLeaseSet x extra = Ok b -> b = false. Proof. scope_case. Qed.
+Proof. exact view_follows_buffer. Qed.
+(* the structures named by the property keep no view of the input: certificate, key
+   certificate, keys-and-cert (generic and typed readers), destination, router identity,
+   signature, offline signature, lease, lease2, LeaseSet, EncryptedLeaseSet *)
 Theorem C08_in_scope_structures_are_copies : forall e, In e in_scope ->
   forall x extra b, bytes_change e x extra = Ok b -> b = false.
-Proof.
-  intros e He. unfold in_scope in He. cbn [In] in He.
-  destruct He as [<-|[<-|[<-|[<-|[<-|[<-|[<-|[<-|[<-|[<-|[<-|[<-|[<-|[]]]]]]]]]]]]]].
-  - exact scope_cert. - exact scope_kc. - exact scope_kac. - exact scope_kac1. - exact scope_kac2.
-  - exact scope_dest. - exact scope_ri. - exact scope_sig. - exact scope_off. - exact scope_lease.
-  - exact scope_lease2. - exact scope_ls. - exact scope_els.
-Qed.
-Print Assumptions C08_in_scope_structures_are_copies.
+Proof. exact in_scope_structures_are_copies. Qed.
 (* LeaseSet2 / MetaLeaseSet: only the options / entry properties (mappings, whose strings
    are sub-slices by design) can follow the buffer *)
 Theorem C08_leaseset2_only_options_alias : forall x extra,
   bytes_change E_ReadLeaseSet2 x extra = Ok true ->
   exists l r, read_lease_set2 x = Ok (l, r) /\ has_pairs (l2_options l) = true.
-Proof.
-  intros x extra H. unfold bytes_change in H. unfold_entries H. cbn [N.eqb Pos.eqb] in H.
-  destruct (read_lease_set2 x) as [[l r]| |]; cbn [rbind fst] in H; try discriminate.
-  injection H as H. eauto.
-Qed.
+Proof. exact leaseset2_only_options_alias. Qed.
+Print Assumptions C08_leaseset2_only_options_alias.
 Example C08_nonvacuous : bytes_change E_ReadLease2 (repeatN 7 40) [] = Ok false /\
   bytes_change E_ReadMapping [0;6;1;97;61;1;98;59] [] = Ok true.
 Proof. vm_compute. auto. Qed.
